@@ -868,7 +868,13 @@ func ext5RunWorld(t *testing.T, lane ext5Lane, sc ext5Scen, rng *rand.Rand) (ev 
 
 	if sc.kind != "C0" {
 		var err error
-		if cl, err = lane.client(srv); err != nil {
+		for i := 0; i < 3; i++ {
+			// (the DNSCrypt client fetches the certificate here; a loaded machine may need a second try)
+			if cl, err = lane.client(srv); err == nil {
+				break
+			}
+		}
+		if err != nil {
 			return fail("client: %v", err)
 		}
 		defer cl.Close()
@@ -884,7 +890,7 @@ func ext5RunWorld(t *testing.T, lane ext5Lane, sc ext5Scen, rng *rand.Rand) (ev 
 		parked[q] = true
 	}
 	inside := map[int]bool{}
-	to := time.After(5 * time.Second)
+	to := time.After(10 * time.Second)
 	for len(inside) < sc.k {
 		select {
 		case q := <-w.entered:
